@@ -4,6 +4,7 @@ import Proofs.C18Laws2
 import Proofs.C18Pooled
 import Proofs.C18Bincount1
 import Proofs.C18Weighted
+import Model.Generated.InfoKernel
 /-!
 C18 — joint counts are exact and mutual information obeys its algebraic laws.
 
@@ -13,6 +14,11 @@ Model: `Model/Info.lean` (mirrors `libinfo.matrix_bincount2d`, `mutual_info.join
 Σ_{(c,x)∈l} c·log x` is the value of a term list printed by the driver; `miVal j x y` is the value
 of `mi[x, y]` for the table `j`.  Counts are `Nat` in the model and `uint32` in the code: the
 theorems assume fewer than 2³² frames (trusted base of `harness/props/c18.py`).
+
+Outside the model, exercised by the harness only: the memory layout of the arrays (C / Fortran /
+strided / reversed views — the model's arrays are index functions), OS thread scheduling, floating
+point (the model returns exact rational terms), `weighted_mi`'s trailing `np.clip(·, 0, inf)` and
+its int16 default state counts (see `wmiValidate`).
 -/
 namespace C18
 open Ens Ens.Info Ens.Sched Ens.InfoR
@@ -36,8 +42,14 @@ theorem jc_exact_all_dtypes (X Y : TArr) (hX : X.valid) (hY : Y.valid) (nx ny : 
   jointCounts_exact X Y hX hY nx ny r h
 
 /-- any interleaving of the `prange` iterations (every thread count, schedule clause and assignment
-of iterations to threads — each `a_row` owns the slab `jc[a_row, …]`) computes the table of the
-sequential triple loop -/
+of iterations to threads) computes the table of the sequential triple loop.
+Scope: race-freedom is *structural* here — the program of `a_row` is typed `Slab → Slab`, i.e. the
+model already says that iteration `a_row` touches `jc[a_row, …]` only.  A kernel that wrote into
+another row's slab (`jc[b_row, a_row, …]`, a `prange` over `t`, …) is outside what this theorem can
+see; that the source really indexes `jc[a_row, b_row, i, j]` inside `prange(a_row)` is re-checked on
+every run by `kernel_source_as_modelled` below (a `decide` over the statements extracted from
+`libinfo.pyx`), and the compiled code is exercised by the differential thread sweeps (1…16 threads)
+of `harness/props/c18.py`. -/
 theorem jc_interleaving (a b : Arr) (e : Exec Slab) (h : IsInterleaving (progs a b) e) :
     run e (fun _ => zeroSlab) = run (seqExec a b) (fun _ => zeroSlab) :=
   jc_interleaving_core a b e h
@@ -97,6 +109,50 @@ theorem bincount1_guard_sound (a b : Arr) (nA nB : Int) (h : Tab2) (hFa : 0 < a.
     (hk : bincount2d a b nA nB = .ok h) :
     a.T = b.T ∧ ∀ w ∈ writes1 a b, 0 ≤ w.2.1 ∧ w.2.1 < nA ∧ 0 ≤ w.2.2 ∧ w.2.2 < nB :=
   bincount2d_guard_sound_core a b nA nB h hFa hFb hk
+
+/-- the statements of the two kernels as extracted from `libinfo.pyx` on this run
+(`Model/Generated/InfoKernel.lean`, regenerated by `harness/props/c18.py translate`) are exactly the
+ones `Model.Info` mirrors: the six asserts in this order, `prange` over `a_row` outermost, the loops
+over `b_row` and `t` inside it, the reads `a[t, a_row]`, `b[t, b_row]` and the single write
+`jc[a_row, b_row, i, j] += 1` in the innermost loop (so iteration `a_row` owns slab `jc[a_row, …]`);
+for the 1-D kernel the guards and `H[i, j] += 1`; both fused types list the eight integer dtypes.
+Any edit of these statements makes this obligation fail (the check then escalates). -/
+theorem kernel_source_as_modelled :
+    Ens.Info.Gen.matrixBincount2dBody =
+  ["4|assert a.shape[1] < 2**32, \"No support for trajectories longer than 2^32\"",
+   "4|assert a.shape[0] == b.shape[0], 'Feature arrays a and b must match in length'",
+   "4|assert a.max() < n_a, \"States indices must be contiguous.\"",
+   "4|assert b.max() < n_b, \"States indices must be contiguous.\"",
+   "4|assert a.min() >= 0, \"States indices must be non-negative.\"",
+   "4|assert b.min() >= 0, \"States indices must be non-negative.\"",
+   "4|cdef np.ndarray[np.uint32_t, ndim=4] jc = np.zeros(",
+   "8|(a.shape[1], b.shape[1], n_a, n_b), dtype=np.uint32)",
+   "4|cdef long a_row, b_row, i, j, t",
+   "4|cdef long n_features = a.shape[1]",
+   "4|for a_row in prange(a.shape[1], nogil=True):",
+   "8|for b_row in range(b.shape[1]):",
+   "12|for t in range(a.shape[0]):",
+   "16|i = a[t, a_row]",
+   "16|j = b[t, b_row]",
+   "16|jc[a_row, b_row, i, j] += 1",
+   "4|return jc"] ∧
+    Ens.Info.Gen.bincount2dBody =
+  ["4|cdef np.ndarray[np.uint32_t, ndim=2] H = np.zeros((n_a, n_b),",
+   "54|dtype=np.uint32)",
+   "4|cdef unsigned int i, j, t",
+   "4|assert a.shape[0] == b.shape[0]",
+   "4|if a.shape[0] > 0:",
+   "8|assert a.max() < n_a and b.max() < n_b, \"States indices must be contiguous.\"",
+   "8|assert a.min() >= 0 and b.min() >= 0, \"States indices must be non-negative.\"",
+   "4|for t in range(a.shape[0]):",
+   "8|i = a[t]",
+   "8|j = b[t]",
+   "8|H[i, j] += 1",
+   "4|return H"] ∧
+    Ens.Info.Gen.fused =
+  [("INTEGRAL_1D_ARRAY", ["int8", "int16", "int32", "int64", "uint8", "uint16", "uint32", "uint64"]),
+   ("INTEGRAL_2D_ARRAY", ["int8", "int16", "int32", "int64", "uint8", "uint16", "uint32", "uint64"])] := by
+  decide
 
 /-! ### mutual information -/
 
